@@ -36,6 +36,14 @@ def planUnary (code : Nat) : List Out :=
 /-- gRPC: a server-streaming handler that returns a stream of `n` messages ending with `code`. -/
 def planStream (n code : Nat) : List Out := .hdr :: (msgs 0 n ++ [.status code])
 
+/-- gRPC: a client-streaming handler answers like a unary one (one message or an error status),
+whatever the number of request messages. -/
+def planClientStream (code : Nat) : List Out := planUnary code
+
+/-- gRPC: a bidi handler that returns a stream of `n` messages ending with `code`; the request
+messages do not show in what the caller receives. -/
+def planBidi (n code : Nat) : List Out := planStream n code
+
 structure ConnView where
   /-- the shutdown signal had fired before this connection was offered to the server -/
   offeredAfterSignal : Bool
